@@ -1497,6 +1497,662 @@ theorem c03_local_quiescent (cap : Nat) (hcap : 0 < cap) (s : LQ)
   | nil => rfl
   | cons b rest => simp [lstep, hi, hout, hcap] at hm
 
+/-! ### layer 2: the wire format of the protobuf library (`Model/C03Wire.lean`)
+
+For the schema language of `Model/C03Wire.lean` the codec round trip is a theorem, not a hypothesis:
+`decode ts (encMsg 1 ts vs) = some vs` for every schema and every value inside the lossless range. -/
+namespace Wire
+
+theorem uvarintF_ne_nil (f n : Nat) : uvarintF f n ≠ [] := by
+  cases f with
+  | zero => simp [uvarintF]
+  | succ f => simp only [uvarintF]; split <;> simp
+
+theorem uvarint_ne_nil (n : Nat) : uvarint n ≠ [] := uvarintF_ne_nil 9 n
+
+theorem uvarint_length_pos (n : Nat) : 1 ≤ (uvarint n).length := by
+  have := uvarint_ne_nil n
+  cases h : uvarint n with
+  | nil => exact absurd h this
+  | cons a l => simp
+
+/-- `binary.Uvarint` inverts `binary.PutUvarint` for every `uint64`, whatever follows in the buffer:
+`i` bytes are behind us, `f` continuation bytes may still come -/
+theorem getUvarintAux_uvarintF (f : Nat) : ∀ (n i acc : Nat) (rest : List Nat), i + f = 9 → n < 2 ^ (64 - 7 * i) →
+    getUvarintAux i acc (uvarintF f n ++ rest) = some (acc + n * 2 ^ (7 * i), rest) := by
+  induction f with
+  | zero =>
+    intro n i acc rest hi hn
+    have : i = 9 := by omega
+    subst this
+    simp at hn
+    have h128 : n < 128 := by omega
+    have h1 : ¬ 1 < n := by omega
+    simp [uvarintF, getUvarintAux, h128, h1]
+  | succ f ih =>
+    intro n i acc rest hi hn
+    have hcases : i = 0 ∨ i = 1 ∨ i = 2 ∨ i = 3 ∨ i = 4 ∨ i = 5 ∨ i = 6 ∨ i = 7 ∨ i = 8 := by omega
+    by_cases h : n < 128
+    · rcases hcases with rfl | rfl | rfl | rfl | rfl | rfl | rfl | rfl | rfl <;>
+        simp [uvarintF, getUvarintAux, h]
+    · rcases hcases with rfl | rfl | rfl | rfl | rfl | rfl | rfl | rfl | rfl
+      all_goals
+        (simp only [uvarintF, h, if_false, List.cons_append, getUvarintAux]
+         rw [if_neg (by omega), if_neg (by omega)]
+         rw [ih (n / 128) _ _ rest (by omega) (by simp at hn ⊢; omega)]
+         simp; omega)
+
+theorem getUvarint_uvarint (n : Nat) (rest : List Nat) (h : n < 2 ^ 64) :
+    getUvarint (uvarint n ++ rest) = some (n, rest) := by
+  have := getUvarintAux_uvarintF 9 n 0 0 rest (by omega) (by simpa using h)
+  simpa [getUvarint, uvarint] using this
+
+theorem zigzag_lt (v : Int) (h1 : -2 ^ 63 ≤ v) (h2 : v < 2 ^ 63) : zigzag v < 2 ^ 64 := by
+  unfold zigzag; split <;> omega
+
+/-- the library's zig-zag decoder inverts its encoder on `-2^62 ≤ v < 2^62` -/
+theorem unzigzag_zigzag (v : Int) (h1 : -2 ^ 62 ≤ v) (h2 : v < 2 ^ 62) : unzigzag (zigzag v) = v := by
+  unfold zigzag unzigzag toI64
+  by_cases h : 0 ≤ v
+  · simp only [h, if_true]
+    have e : ((2 * v).toNat : Int) = 2 * v := Int.toNat_of_nonneg (by omega)
+    have hlt : (2 * v).toNat < 2 ^ 63 := by omega
+    have hm : (2 * v).toNat % 2 = 0 := by omega
+    simp only [hlt, if_true, hm]
+    omega
+  · simp only [h, if_false]
+    have e : ((-2 * v - 1).toNat : Int) = -2 * v - 1 := Int.toNat_of_nonneg (by omega)
+    have hlt : (-2 * v - 1).toNat < 2 ^ 63 := by omega
+    have hm : (-2 * v - 1).toNat % 2 = 1 := by omega
+    simp only [hlt, if_true, hm]
+    omega
+
+theorem wrapI32_id (v : Int) (h1 : -2 ^ 31 ≤ v) (h2 : v < 2 ^ 31) : wrapI32 v = v := by
+  unfold wrapI32; omega
+
+theorem le64_length (x : Nat) : (le64 x).length = 8 := by simp [le64]
+
+theorem unle_le64 (x : Nat) (h : x < 2 ^ 64) : unle (le64 x) = x := by
+  simp only [le64, unle, List.foldr]; omega
+
+/-! ### `decoder.value` on what the encoder wrote -/
+
+theorem parseRaw_varint (n : Nat) (rest : List Nat) (h : n < 2 ^ 64) :
+    parseRaw 0 (uvarint n ++ rest) = some (n, [], rest) := by
+  simp [parseRaw, getUvarint_uvarint n rest h]
+
+theorem parseRaw_fixed64 (x : Nat) (rest : List Nat) (h : x < 2 ^ 64) :
+    parseRaw 1 (le64 x ++ rest) = some (x, [], rest) := by
+  have hl := le64_length x
+  simp only [parseRaw]
+  rw [if_neg (by omega), if_neg (by omega), if_pos trivial, if_neg (by simp [hl])]
+  rw [List.take_append_of_le_length (by omega), List.take_of_length_le (by omega),
+    List.drop_append_of_le_length (by omega), List.drop_of_length_le (by omega), unle_le64 x h]
+  simp
+
+theorem parseRaw_delim (body rest : List Nat) (h : body.length < 2 ^ 64) :
+    parseRaw 2 (uvarint body.length ++ body ++ rest) = some (body.length, body, rest) := by
+  simp only [parseRaw]
+  rw [if_neg (by omega), if_neg (by omega), if_neg (by omega), if_pos trivial, List.append_assoc,
+    getUvarint_uvarint _ _ h]
+  simp
+
+
+/-- a type whose values are exactly one wire entry: what a pointer may point to and a slice may hold -/
+def Ty.single : Ty → Bool
+  | .rep _ | .opt _ => false
+  | _ => true
+
+mutual
+/-- the values of the schema language that the library encodes and decodes without loss: integers
+inside their width (and inside the zig-zag decoder's range), lengths that fit a `uint64`, pointers
+and slices of single-entry types -/
+def wf : Ty → Val → Bool
+  | .i32, .int i => decide (-2 ^ 31 ≤ i ∧ i < 2 ^ 31)
+  | .i64, .int i => decide (-2 ^ 62 ≤ i ∧ i < 2 ^ 62)
+  | .u32, .nat n => decide (n < 2 ^ 32)
+  | .u64, .nat n => decide (n < 2 ^ 64)
+  | .bool, .bool _ => true
+  | .f64, .f64 x => decide (x < 2 ^ 64)
+  | .bytes, .bytes b => decide (b.length < 2 ^ 64)
+  | .msg ts, .msg vs => wfs ts vs && decide ((encMsg 1 ts vs).length < 2 ^ 64) && decide (ts.length < 2 ^ 60)
+  | .rep t, .rep l => t.single && wfAll t l && (!t.packed || decide ((encPackedAll t l).length < 2 ^ 64))
+  | .opt t, .opt none => t.single
+  | .opt t, .opt (some v) => t.single && wf t v
+  | _, _ => false
+termination_by structural _ v => v
+def wfs : List Ty → List Val → Bool
+  | [], [] => true
+  | t :: ts, v :: vs => wf t v && wfs ts vs
+  | _, _ => false
+termination_by structural _ vs => vs
+def wfAll (t : Ty) : List Val → Bool
+  | [] => true
+  | v :: l => wf t v && wfAll t l
+termination_by structural l => l
+end
+
+theorem zeros_length (ts : List Ty) : (zeros ts).length = ts.length := by
+  induction ts with
+  | nil => rfl
+  | cons t ts ih => simp [zeros, ih]
+
+theorem decMsg_nil (fuel : Nat) (ts : List Ty) (cur : List Val) (fi : Nat) :
+    decMsg fuel ts cur fi [] = some cur := by
+  cases fuel <;> simp [decMsg]
+
+/-- one turn of the decoder's loop on an entry for field `k` -/
+theorem decMsg_step (fuel : Nat) (ts : List Ty) (cur : List Val) (fi k wt x : Nat) (vb buf r1 rest : List Nat)
+    (nv : Val) (t : Ty) (old : Val)
+    (hbuf : buf ≠ []) (hkey : getUvarint buf = some ((k + 1) * 8 + wt, r1)) (hwt : wt < 8)
+    (hraw : parseRaw wt r1 = some (x, vb, rest)) (hfi : fi ≤ k) (hk : k < ts.length)
+    (ht : ts[k]? = some t) (hold : cur[k]? = some old)
+    (hput : putValue (fun ts' b => decMsg fuel ts' (zeros ts') 0 b) t old wt x vb = some nv) :
+    decMsg (fuel + 1) ts cur fi buf = decMsg fuel ts (cur.set k nv) k rest := by
+  have hemp : buf.isEmpty = false := by simpa using hbuf
+  have h1 : ((k + 1) * 8 + wt) % 8 = wt := by omega
+  have h2 : ((k + 1) * 8 + wt) / 8 = k + 1 := by omega
+  have hfi' : max fi (min (k + 1 - 1) ts.length) = k := by
+    have : min (k + 1 - 1) ts.length = k := by omega
+    omega
+  have hget : ts.getD k .bool = t := by simp [List.getD, ht]
+  have hgo : cur.getD k (.bool false) = old := by simp [List.getD, hold]
+  simp only [decMsg, hemp, Bool.false_eq_true, if_false, hkey, h1, h2, Nat.add_one_ne_zero, hfi', hraw,
+    hk, true_and, if_true, hget, hgo, hput]
+
+
+/-- one element of a packed slice: what the encoder writes, the decoder reads back -/
+theorem packed_elem (t : Ty) (v : Val) (hp : t.packed = true) (hw : wf t v = true) (R : List Nat) :
+    encPacked t v ≠ [] ∧
+    ∃ x, parseRaw t.packedWt (encPacked t v ++ R) = some (x, [], R) ∧
+      putScalar t t.packedWt x [] = some v := by
+  match t, v, hp, hw with
+  | .i32, .int i, _, hw =>
+    simp [wf] at hw
+    refine ⟨uvarint_ne_nil _, zigzag i, ?_, ?_⟩
+    · simpa [encPacked, Ty.packedWt] using parseRaw_varint (zigzag i) R (zigzag_lt i (by omega) (by omega))
+    · simp [putScalar, Ty.packedWt, decodeSigned, unzigzag_zigzag i (by omega) (by omega), wrapI32_id i hw.1 hw.2]
+  | .i64, .int i, _, hw =>
+    simp [wf] at hw
+    refine ⟨uvarint_ne_nil _, zigzag i, ?_, ?_⟩
+    · simpa [encPacked, Ty.packedWt] using parseRaw_varint (zigzag i) R (zigzag_lt i (by omega) (by omega))
+    · simp [putScalar, Ty.packedWt, decodeSigned, unzigzag_zigzag i hw.1 hw.2]
+  | .u32, .nat n, _, hw =>
+    simp [wf] at hw
+    refine ⟨uvarint_ne_nil _, n, ?_, ?_⟩
+    · simpa [encPacked, Ty.packedWt] using parseRaw_varint n R (by omega)
+    · simp [putScalar, Ty.packedWt, decodeUnsigned]; omega
+  | .u64, .nat n, _, hw =>
+    simp [wf] at hw
+    refine ⟨uvarint_ne_nil _, n, ?_, ?_⟩
+    · simpa [encPacked, Ty.packedWt] using parseRaw_varint n R hw
+    · simp [putScalar, Ty.packedWt, decodeUnsigned]
+  | .bool, .bool b, _, _ =>
+    refine ⟨uvarint_ne_nil _, (if b then 1 else 0), ?_, ?_⟩
+    · simpa [encPacked, Ty.packedWt] using parseRaw_varint (if b then 1 else 0) R (by split <;> omega)
+    · cases b <;> simp [putScalar, Ty.packedWt]
+  | .f64, .f64 x, _, hw =>
+    simp [wf] at hw
+    refine ⟨by simp [encPacked, le64], x, ?_, ?_⟩
+    · simpa [encPacked, Ty.packedWt] using parseRaw_fixed64 x R hw
+    · simp [putScalar, Ty.packedWt]
+
+theorem decPacked_rt (t : Ty) (hp : t.packed = true) (l : List Val) (hw : wfAll t l = true)
+    (fuel : Nat) (hf : (encPackedAll t l).length ≤ fuel) :
+    decPacked t fuel (encPackedAll t l) = some l := by
+  induction l generalizing fuel with
+  | nil => cases fuel <;> simp [encPackedAll, decPacked]
+  | cons v l ih =>
+    simp only [wfAll, Bool.and_eq_true] at hw
+    obtain ⟨hne, x, hraw, hput⟩ := packed_elem t v hp hw.1 (encPackedAll t l)
+    have hpos : 1 ≤ (encPacked t v).length := by
+      cases h : encPacked t v with
+      | nil => exact absurd h hne
+      | cons a b => simp
+    simp only [encPackedAll, List.length_append] at hf ⊢
+    cases fuel with
+    | zero => omega
+    | succ fuel =>
+      have hemp : (encPacked t v ++ encPackedAll t l).isEmpty = false := by
+        simp [hne]
+      simp only [decPacked, hemp, Bool.false_eq_true, if_false, hraw, hput, ih hw.2 fuel (by omega)]
+      rfl
+
+
+/-- a value of a single-entry type as one wire entry: key ‖ payload; the decoder's raw parse gives
+back `(x, vb)`, from which `putvalue` rebuilds the value (for an embedded message, given enough
+fuel for its body); a length-delimited entry ignores `x` -/
+def EntryRT (t : Ty) (v : Val) : Prop :=
+  ∀ key, key % 8 = 0 → key + 8 ≤ 2 ^ 64 →
+    ∃ wt x vb P, wt < 8 ∧ encField key t v = uvarint (key + wt) ++ P ∧
+      (∀ R, parseRaw wt (P ++ R) = some (x, vb, R)) ∧ vb.length ≤ P.length ∧
+      (∀ fuel old, vb.length < fuel →
+        putValue (fun ts' b => decMsg fuel ts' (zeros ts') 0 b) t old wt x vb = some v) ∧
+      (t.packed = false → wt = 2 ∧ ∀ fuel old x', vb.length < fuel →
+        putValue (fun ts' b => decMsg fuel ts' (zeros ts') 0 b) t old 2 x' vb = some v)
+
+/-- a field of any type inside the decoder's loop: the entries the encoder wrote for field `k`
+(none, one, or one per element) take the struct from "field `k` still zero" to "field `k` = v" -/
+def FieldRT (t : Ty) (v : Val) : Prop :=
+  ∀ (tsAll : List Ty) (cur : List Val) (k fi fuel : Nat) (R : List Nat),
+    tsAll[k]? = some t → cur.length = tsAll.length → cur[k]? = some (zero t) → fi ≤ k → k < 2 ^ 60 →
+    (encField ((k + 1) * 8) t v ++ R).length < fuel →
+    ∃ fuel2 fi2, fi2 ≤ k ∧ fi ≤ fi2 ∧ R.length < fuel2 ∧
+      decMsg fuel tsAll cur fi (encField ((k + 1) * 8) t v ++ R) = decMsg fuel2 tsAll (cur.set k v) fi2 R
+
+theorem set_same (cur : List Val) (k : Nat) (v : Val) (h : cur[k]? = some v) : cur.set k v = cur := by
+  apply List.ext_getElem?
+  intro i
+  by_cases hi : i = k
+  · subst hi
+    have hh := List.getElem?_eq_some_iff.mp h
+    simp [hh.1, hh.2]
+  · simp [List.getElem?_set, Ne.symm hi]
+
+/-- the loop on the one entry the encoder wrote for a value `v` of a single-entry type `t`, when
+field `k` has type `T` and `putvalue` at `T` turns `t`'s result into `nv` -/
+theorem entry_step (t : Ty) (v : Val) (he : EntryRT t v)
+    (tsAll : List Ty) (cur : List Val) (k fi fuel : Nat) (R : List Nat) (T : Ty) (old nv : Val)
+    (hT : tsAll[k]? = some T) (hold : cur[k]? = some old) (hfi : fi ≤ k) (hk : k < 2 ^ 60)
+    (hf : (encField ((k + 1) * 8) t v ++ R).length < fuel)
+    (hput : ∀ f wt x vb, vb.length < f →
+      (∀ old', putValue (fun ts' b => decMsg f ts' (zeros ts') 0 b) t old' wt x vb = some v) →
+      (t.packed = false → wt = 2 ∧ ∀ old' x', putValue (fun ts' b => decMsg f ts' (zeros ts') 0 b) t old' 2 x' vb = some v) →
+      putValue (fun ts' b => decMsg f ts' (zeros ts') 0 b) T old wt x vb = some nv) :
+    ∃ f, fuel = f + 1 ∧ R.length < f ∧
+      decMsg fuel tsAll cur fi (encField ((k + 1) * 8) t v ++ R) = decMsg f tsAll (cur.set k nv) k R := by
+  obtain ⟨wt, x, vb, P, hwt, henc, hraw, hvb, hp1, hp2⟩ := he ((k + 1) * 8) (by omega) (by omega)
+  have hkl : k < tsAll.length := (List.getElem?_eq_some_iff.mp hT).1
+  have hu := uvarint_length_pos ((k + 1) * 8 + wt)
+  rw [henc] at hf ⊢
+  simp only [List.length_append] at hf
+  cases fuel with
+  | zero => omega
+  | succ f =>
+    refine ⟨f, rfl, by omega, ?_⟩
+    have hkey : getUvarint (uvarint ((k + 1) * 8 + wt) ++ P ++ R) = some ((k + 1) * 8 + wt, P ++ R) := by
+      rw [List.append_assoc]; exact getUvarint_uvarint _ _ (by omega)
+    have hvbf : vb.length < f := by omega
+    exact decMsg_step f tsAll cur fi k wt x vb _ (P ++ R) R nv T old
+      (by simp [uvarint_ne_nil]) hkey hwt (hraw R) hfi hkl hT hold
+      (hput f wt x vb hvbf (fun old' => hp1 f old' hvbf)
+        (fun hnp => ⟨(hp2 hnp).1, fun old' x' => (hp2 hnp).2 f old' x' hvbf⟩))
+
+/-- a field of a single-entry type -/
+theorem field_of_entry (t : Ty) (v : Val) (he : EntryRT t v) : FieldRT t v := by
+  intro tsAll cur k fi fuel R ht _ hz hfi hk hf
+  obtain ⟨f, _, hR, hstep⟩ := entry_step t v he tsAll cur k fi fuel R t (zero t) v ht hz hfi hk hf
+    (fun f wt x vb _ h _ => h (zero t))
+  exact ⟨f, k, Nat.le_refl k, hfi, hR, hstep⟩
+
+theorem putValue_opt (sub : List Ty → List Nat → Option (List Val)) (t : Ty) (old : Val) (wt x : Nat) (vb : List Nat) :
+    putValue sub (.opt t) old wt x vb =
+      (putValue sub t (pointee t old) wt x vb).map fun y => .opt (some y) := by
+  rw [putValue]
+
+/-- a pointer field: nothing on the wire for nil, the pointee's entry otherwise -/
+theorem field_opt_none (t : Ty) : FieldRT (.opt t) (.opt none) := by
+  intro tsAll cur k fi fuel R _ _ hz hfi _ hf
+  refine ⟨fuel, fi, hfi, Nat.le_refl fi, by simpa [encField] using hf, ?_⟩
+  have : zero (.opt t) = .opt none := by simp [zero]
+  rw [this] at hz
+  simp [encField, set_same cur k _ hz]
+
+theorem field_opt_some (t : Ty) (v : Val) (he : EntryRT t v) : FieldRT (.opt t) (.opt (some v)) := by
+  intro tsAll cur k fi fuel R ht _ hz hfi hk hf
+  have hz' : cur[k]? = some (.opt none) := by simpa [zero] using hz
+  have henc : encField ((k + 1) * 8) (.opt t) (.opt (some v)) = encField ((k + 1) * 8) t v := by
+    simp [encField]
+  rw [henc] at hf ⊢
+  obtain ⟨f, _, hR, hstep⟩ := entry_step t v he tsAll cur k fi fuel R (.opt t) (.opt none) (.opt (some v))
+    ht hz' hfi hk hf
+    (fun f wt x vb _ h _ => by rw [putValue_opt]; simp [h (pointee t (.opt none))])
+  exact ⟨f, k, Nat.le_refl k, hfi, hR, hstep⟩
+
+
+theorem lenDelim_eq (key : Nat) (body : List Nat) :
+    lenDelim key body = uvarint (key + 2) ++ (uvarint body.length ++ body) := by
+  simp [lenDelim]
+
+theorem putValue_rep (sub : List Ty → List Nat → Option (List Val)) (t : Ty) (old : Val) (wt x : Nat) (vb : List Nat) :
+    putValue sub (.rep t) old wt x vb =
+      if wt ≠ 2 then none else
+      if t.packed then (decPacked t vb.length vb).map fun xs => .rep (elems old ++ xs)
+      else (putValue sub t (zero t) 2 0 vb).map fun y => .rep (elems old ++ [y]) := by
+  rw [putValue]
+
+/-- a slice of numbers: one length-delimited entry with all elements packed -/
+theorem field_rep_packed (t : Ty) (l : List Val) (hp : t.packed = true) (hw : wfAll t l = true)
+    (hlen : (encPackedAll t l).length < 2 ^ 64) : FieldRT (.rep t) (.rep l) := by
+  intro tsAll cur k fi fuel R ht _ hz hfi hk hf
+  have hz' : cur[k]? = some (.rep []) := by simpa [zero] using hz
+  have hkl : k < tsAll.length := (List.getElem?_eq_some_iff.mp ht).1
+  have henc : encField ((k + 1) * 8) (.rep t) (.rep l) =
+      uvarint ((k + 1) * 8 + 2) ++ (uvarint (encPackedAll t l).length ++ encPackedAll t l) := by
+    simp [encField, hp, lenDelim]
+  rw [henc] at hf ⊢
+  have hu := uvarint_length_pos ((k + 1) * 8 + 2)
+  simp only [List.length_append] at hf
+  cases fuel with
+  | zero => omega
+  | succ f =>
+    refine ⟨f, k, Nat.le_refl k, hfi, by omega, ?_⟩
+    have hkey : getUvarint (uvarint ((k + 1) * 8 + 2) ++ (uvarint (encPackedAll t l).length ++ encPackedAll t l) ++ R) =
+        some ((k + 1) * 8 + 2, uvarint (encPackedAll t l).length ++ encPackedAll t l ++ R) := by
+      rw [List.append_assoc]; exact getUvarint_uvarint _ _ (by omega)
+    exact decMsg_step f tsAll cur fi k 2 _ (encPackedAll t l) _ _ R (.rep l) (.rep t) (.rep [])
+      (by simp [uvarint_ne_nil]) hkey (by omega) (parseRaw_delim _ R hlen) hfi hkl ht hz'
+      (by rw [putValue_rep]; simp [hp, decPacked_rt t hp l hw _ (Nat.le_refl _), elems])
+
+/-- a slice of byte strings or messages: one entry per element, each appended to what is there -/
+theorem rep_unpacked_loop (t : Ty) (hnp : t.packed = false) (l : List Val) (he : ∀ v ∈ l, EntryRT t v)
+    (tsAll : List Ty) (k : Nat) (ht : tsAll[k]? = some (.rep t)) (hk : k < 2 ^ 60) :
+    ∀ (acc : List Val) (cur : List Val) (fi fuel : Nat) (R : List Nat),
+      cur[k]? = some (.rep acc) → fi ≤ k → (encRep ((k + 1) * 8) t l ++ R).length < fuel →
+      ∃ fuel2 fi2, fi2 ≤ k ∧ fi ≤ fi2 ∧ R.length < fuel2 ∧
+        decMsg fuel tsAll cur fi (encRep ((k + 1) * 8) t l ++ R) =
+          decMsg fuel2 tsAll (cur.set k (.rep (acc ++ l))) fi2 R := by
+  induction l with
+  | nil =>
+    intro acc cur fi fuel R hc hfi hf
+    exact ⟨fuel, fi, hfi, Nat.le_refl fi, by simpa [encRep] using hf, by simp [encRep, set_same cur k _ hc]⟩
+  | cons v l ih =>
+    intro acc cur fi fuel R hc hfi hf
+    simp only [encRep, List.append_assoc] at hf ⊢
+    obtain ⟨f, _, hR, hstep⟩ := entry_step t v (he v (by simp)) tsAll cur k fi fuel (encRep ((k + 1) * 8) t l ++ R)
+      (.rep t) (.rep acc) (.rep (acc ++ [v])) ht hc hfi hk hf
+      (fun f wt x vb _ _ h2 => by
+        obtain ⟨hwt, hp⟩ := h2 hnp
+        rw [putValue_rep, hwt]
+        simp [hnp, hp (zero t) 0, elems])
+    rw [hstep]
+    have hc' : (cur.set k (.rep (acc ++ [v])))[k]? = some (.rep (acc ++ [v])) := by
+      have hlt : k < cur.length := (List.getElem?_eq_some_iff.mp hc).1
+      simp [hlt]
+    obtain ⟨f2, fi2, h1, h2, h3, h4⟩ := ih (fun w hw => he w (by simp [hw])) (acc ++ [v]) _ k f R hc' (Nat.le_refl k) hR
+    refine ⟨f2, fi2, h1, by omega, h3, ?_⟩
+    rw [h4]
+    simp [List.set_set, List.append_assoc]
+
+theorem field_rep_unpacked (t : Ty) (hnp : t.packed = false) (l : List Val) (he : ∀ v ∈ l, EntryRT t v) :
+    FieldRT (.rep t) (.rep l) := by
+  intro tsAll cur k fi fuel R ht _ hz hfi hk hf
+  have hz' : cur[k]? = some (.rep []) := by simpa [zero] using hz
+  have henc : encField ((k + 1) * 8) (.rep t) (.rep l) = encRep ((k + 1) * 8) t l := by
+    simp [encField, hnp]
+  rw [henc] at hf ⊢
+  simpa using rep_unpacked_loop t hnp l he tsAll k ht hk [] cur fi fuel R hz' hfi hf
+
+
+/-- the scalar types and byte strings as one wire entry -/
+theorem entry_scalar (t : Ty) (v : Val) (hw : wf t v = true)
+    (ht : t.packed = true ∨ t = .bytes) : EntryRT t v := by
+  intro key hk8 hk64
+  match t, v, hw, ht with
+  | .i32, .int i, hw, _ =>
+    simp [wf] at hw
+    refine ⟨0, zigzag i, [], uvarint (zigzag i), by omega, by simp [encField], fun R => ?_, by simp, ?_, by simp [Ty.packed]⟩
+    · exact parseRaw_varint _ R (zigzag_lt i (by omega) (by omega))
+    · intro fuel old _
+      rw [putValue]
+      simp [putScalar, decodeSigned, unzigzag_zigzag i (by omega) (by omega), wrapI32_id i hw.1 hw.2]
+  | .i64, .int i, hw, _ =>
+    simp [wf] at hw
+    refine ⟨0, zigzag i, [], uvarint (zigzag i), by omega, by simp [encField], fun R => ?_, by simp, ?_, by simp [Ty.packed]⟩
+    · exact parseRaw_varint _ R (zigzag_lt i (by omega) (by omega))
+    · intro fuel old _
+      rw [putValue]
+      simp [putScalar, decodeSigned, unzigzag_zigzag i hw.1 hw.2]
+  | .u32, .nat n, hw, _ =>
+    simp [wf] at hw
+    refine ⟨0, n, [], uvarint n, by omega, by simp [encField], fun R => parseRaw_varint n R (by omega), by simp, ?_, by simp [Ty.packed]⟩
+    intro fuel old _
+    rw [putValue]
+    simp [putScalar, decodeUnsigned]; omega
+  | .u64, .nat n, hw, _ =>
+    simp [wf] at hw
+    refine ⟨0, n, [], uvarint n, by omega, by simp [encField], fun R => parseRaw_varint n R hw, by simp, ?_, by simp [Ty.packed]⟩
+    intro fuel old _
+    rw [putValue]
+    simp [putScalar, decodeUnsigned]
+  | .bool, .bool b, _, _ =>
+    refine ⟨0, (if b then 1 else 0), [], uvarint (if b then 1 else 0), by omega, by simp [encField],
+      fun R => parseRaw_varint _ R (by split <;> omega), by simp, ?_, by simp [Ty.packed]⟩
+    intro fuel old _
+    rw [putValue]
+    cases b <;> simp [putScalar]
+  | .f64, .f64 x, hw, _ =>
+    simp [wf] at hw
+    refine ⟨1, x, [], le64 x, by omega, by simp [encField], fun R => parseRaw_fixed64 x R hw, by simp, ?_, by simp [Ty.packed]⟩
+    intro fuel old _
+    rw [putValue]
+    simp [putScalar]
+  | .bytes, .bytes b, hw, _ =>
+    simp [wf] at hw
+    refine ⟨2, b.length, b, uvarint b.length ++ b, by omega, by simp [encField, lenDelim], fun R => ?_, by simp, ?_, ?_⟩
+    · exact parseRaw_delim b R hw
+    · intro fuel old _
+      rw [putValue]
+      simp [putScalar]
+    · intro _
+      refine ⟨rfl, fun fuel old x' _ => ?_⟩
+      rw [putValue]
+      simp [putScalar]
+
+/-- field by field: the values of a message schema, pairwise -/
+def AllFieldRT : List Ty → List Val → Prop
+  | t :: ts, v :: vs => FieldRT t v ∧ AllFieldRT ts vs
+  | _, _ => True
+
+theorem zeros_drop (ts : List Ty) (k : Nat) : (zeros ts).drop k = zeros (ts.drop k) := by
+  induction ts generalizing k with
+  | nil => simp [zeros]
+  | cons t ts ih =>
+    cases k with
+    | zero => rfl
+    | succ k => simp [zeros, ih]
+
+/-- the decoder's loop over the fields `k, k+1, …` of a message: from a struct whose fields `k…`
+are still zero to the struct holding the values -/
+theorem fields_loop (tsAll : List Ty) (hlen : tsAll.length < 2 ^ 60) :
+    ∀ (ts : List Ty) (vs : List Val) (k : Nat) (cur : List Val) (fi fuel : Nat),
+      tsAll.drop k = ts → wfs ts vs = true → AllFieldRT ts vs → cur.length = tsAll.length →
+      cur.drop k = zeros ts → fi ≤ k → (encMsg (k + 1) ts vs).length < fuel →
+      decMsg fuel tsAll cur fi (encMsg (k + 1) ts vs) = some (cur.take k ++ vs) := by
+  intro ts
+  induction ts with
+  | nil =>
+    intro vs k cur fi fuel hd hw _ hcl hz _ _
+    cases vs with
+    | nil =>
+      have hk : tsAll.length ≤ k := by
+        have := congrArg List.length hd; simp at this; omega
+      simp [encMsg, decMsg_nil, List.take_of_length_le (by omega : cur.length ≤ k)]
+    | cons v vs => simp [wfs] at hw
+  | cons t ts ih =>
+    intro vs k cur fi fuel hd hw hall hcl hz hfi hf
+    cases vs with
+    | nil => simp [wfs] at hw
+    | cons v vs =>
+      simp only [wfs, Bool.and_eq_true] at hw
+      have hkl : k < tsAll.length := by
+        have := congrArg List.length hd; simp at this; omega
+      have htk : tsAll[k]? = some t := by
+        have : (tsAll.drop k)[0]? = some t := by rw [hd]; rfl
+        simpa using this
+      have hzk : cur[k]? = some (zero t) := by
+        have : (cur.drop k)[0]? = some (zero t) := by rw [hz]; rfl
+        simpa using this
+      simp only [encMsg] at hf ⊢
+      obtain ⟨f2, fi2, h1, _, h3, h4⟩ := hall.1 tsAll cur k fi fuel (encMsg (k + 1 + 1) ts vs) htk hcl hzk hfi (by omega) hf
+      rw [h4]
+      have hd' : tsAll.drop (k + 1) = ts := by
+        rw [← List.drop_drop, hd]; rfl
+      have hz' : (cur.set k v).drop (k + 1) = zeros ts := by
+        rw [List.drop_set_of_lt (by omega), ← List.drop_drop, hz]; rfl
+      rw [ih vs (k + 1) (cur.set k v) fi2 f2 hd' hw.2 hall.2 (by simpa using hcl) hz' (by omega) h3]
+      have hlt : k < cur.length := by omega
+      congr 1
+      rw [List.take_add_one]
+      simp [hlt, List.take_set_of_le]
+
+
+/-- an embedded message as one length-delimited entry, given that its fields round-trip -/
+theorem entry_msg (ts : List Ty) (vs : List Val) (hw : wf (.msg ts) (.msg vs) = true)
+    (hall : AllFieldRT ts vs) : EntryRT (.msg ts) (.msg vs) := by
+  simp only [wf, Bool.and_eq_true, decide_eq_true_eq] at hw
+  obtain ⟨⟨hwfs, hlen⟩, htl⟩ := hw
+  have hsub : ∀ fuel, (encMsg 1 ts vs).length < fuel →
+      decMsg fuel ts (zeros ts) 0 (encMsg 1 ts vs) = some vs := by
+    intro fuel hf
+    have := fields_loop ts htl ts vs 0 (zeros ts) 0 fuel (by simp) hwfs hall (zeros_length ts) (by simp)
+      (Nat.le_refl 0) (by simpa using hf)
+    simpa using this
+  intro key _ _
+  refine ⟨2, (encMsg 1 ts vs).length, encMsg 1 ts vs, uvarint (encMsg 1 ts vs).length ++ encMsg 1 ts vs,
+    by omega, by simp [encField, lenDelim], fun R => parseRaw_delim _ R hlen, by simp, ?_, ?_⟩
+  · intro fuel old hf
+    rw [putValue]
+    simp [hsub fuel hf]
+  · intro _
+    refine ⟨rfl, fun fuel old x' hf => ?_⟩
+    rw [putValue]
+    simp [hsub fuel hf]
+
+/-- what the recursion over values carries: single-entry types give an entry, every type a field -/
+def Good (v : Val) : Prop :=
+  (∀ t, wf t v = true → t.single = true → EntryRT t v) ∧ (∀ t, wf t v = true → FieldRT t v)
+
+theorem allField_of_good : ∀ (ts : List Ty) (vs : List Val), (∀ v ∈ vs, Good v) → wfs ts vs = true → AllFieldRT ts vs
+  | [], _, _, _ => by simp [AllFieldRT]
+  | _ :: _, [], _, _ => by simp [AllFieldRT]
+  | t :: ts, v :: vs, hg, hw => by
+    simp only [wfs, Bool.and_eq_true] at hw
+    exact ⟨(hg v (by simp)).2 t hw.1, allField_of_good ts vs (fun w hw' => hg w (by simp [hw'])) hw.2⟩
+
+theorem wfAll_mem (t : Ty) (l : List Val) (h : wfAll t l = true) : ∀ v ∈ l, wf t v = true := by
+  induction l with
+  | nil => simp
+  | cons a l ih =>
+    simp only [wfAll, Bool.and_eq_true] at h
+    intro v hv
+    rcases List.mem_cons.mp hv with rfl | hv
+    · exact h.1
+    · exact ih h.2 v hv
+
+theorem good_scalar (v : Val) (hs : ∀ t, wf t v = true → t.packed = true ∨ t = .bytes) : Good v :=
+  ⟨fun t hw _ => entry_scalar t v hw (hs t hw),
+   fun t hw => field_of_entry t v (entry_scalar t v hw (hs t hw))⟩
+
+mutual
+theorem good : (v : Val) → Good v
+  | .int i => good_scalar _ (by intro t hw; cases t <;> simp_all [wf, Ty.packed])
+  | .nat n => good_scalar _ (by intro t hw; cases t <;> simp_all [wf, Ty.packed])
+  | .bool b => good_scalar _ (by intro t hw; cases t <;> simp_all [wf, Ty.packed])
+  | .f64 x => good_scalar _ (by intro t hw; cases t <;> simp_all [wf, Ty.packed])
+  | .bytes b => good_scalar _ (by intro t hw; cases t <;> simp_all [wf, Ty.packed])
+  | .msg vs => by
+    have hg := goods vs
+    have he : ∀ t, wf t (.msg vs) = true → EntryRT t (.msg vs) := by
+      intro t hw
+      cases t <;> first | (simp [wf] at hw; done) | skip
+      rename_i ts
+      have hw' : wf (.msg ts) (.msg vs) = true := by simpa [wf] using hw
+      have hwfs : wfs ts vs = true := by
+        simp only [wf, Bool.and_eq_true] at hw'; exact hw'.1.1
+      exact entry_msg ts vs hw' (allField_of_good ts vs hg hwfs)
+    exact ⟨fun t hw _ => he t hw, fun t hw => field_of_entry t _ (he t hw)⟩
+  | .rep l => by
+    have hg := goods l
+    refine ⟨fun t hw hs => ?_, fun t hw => ?_⟩
+    · cases t <;> simp_all [wf, Ty.single]
+    · cases t <;> first | (simp [wf] at hw; done) | skip
+      rename_i t'
+      simp only [wf, Bool.and_eq_true, Bool.or_eq_true, Bool.not_eq_true', decide_eq_true_eq] at hw
+      obtain ⟨⟨hs, hall⟩, hpk⟩ := hw
+      by_cases hp : t'.packed = true
+      · exact field_rep_packed t' l hp hall (hpk.elim (fun h => by simp [hp] at h) id)
+      · have hnp : t'.packed = false := by simpa using hp
+        exact field_rep_unpacked t' hnp l fun e he => (hg e he).1 t' (wfAll_mem t' l hall e he) hs
+  | .opt none => by
+    refine ⟨fun t hw hs => ?_, fun t hw => ?_⟩
+    · cases t <;> simp_all [wf, Ty.single]
+    · cases t <;> first | (simp [wf] at hw; done) | skip
+      exact field_opt_none _
+  | .opt (some v) => by
+    have hg := good v
+    refine ⟨fun t hw hs => ?_, fun t hw => ?_⟩
+    · cases t <;> simp_all [wf, Ty.single]
+    · cases t <;> first | (simp [wf] at hw; done) | skip
+      rename_i t'
+      simp only [wf, Bool.and_eq_true] at hw
+      exact field_opt_some t' v (hg.1 t' hw.2 hw.1)
+theorem goods : (l : List Val) → ∀ v ∈ l, Good v
+  | [] => by simp
+  | v :: l => fun w hw =>
+    (List.mem_cons.mp hw).elim (fun h => h ▸ good v) (goods l w)
+end
+
+
+/-- **layer 2: the wire codec round-trips.** For every message schema of the language (integers of
+both widths and signs, booleans, float64, byte strings, nested messages to any depth, packed and
+unpacked repeated fields, optional pointers) and every value of it inside the lossless range, what
+`protobuf.Encode` writes, `protobuf.Decode` reads back as the same value. -/
+theorem c03_wire_roundtrip (ts : List Ty) (vs : List Val) (hw : wf (.msg ts) (.msg vs) = true) :
+    decode ts (encMsg 1 ts vs) = some vs := by
+  have hw' := hw
+  simp only [wf, Bool.and_eq_true, decide_eq_true_eq] at hw'
+  obtain ⟨⟨hwfs, _⟩, htl⟩ := hw'
+  have hall := allField_of_good ts vs (goods vs) hwfs
+  have := fields_loop ts htl ts vs 0 (zeros ts) 0 ((encMsg 1 ts vs).length + 1) (by simp) hwfs hall
+    (zeros_length ts) (by simp) (Nat.le_refl 0) (by simp)
+  simpa [decode] using this
+
+
+
+end Wire
+
+/-- the typed codec of layer 2: a message is a Go type and the values of its fields; the schema of
+each Go type is a table; `Encode`/`Decode` are the wire model -/
+def wireTCodec (schema : GoType → List Wire.Ty) : TCodec (GoType × List Wire.Val) where
+  typeOf v := v.1
+  encodable v := Wire.wf (.msg (schema v.1)) (.msg v.2)
+  enc v := Wire.encMsg 1 (schema v.1) v.2
+  dec t b := (Wire.decode (schema t) b).map fun vs => (t, vs)
+
+/-- for messages of the schema language the codec hypothesis is a theorem -/
+theorem wireTCodec_sound (schema : GoType → List Wire.Ty) : (wireTCodec schema).Sound := by
+  constructor
+  intro v hv
+  simp only [wireTCodec] at hv ⊢
+  rw [Wire.c03_wire_roundtrip (schema v.1) v.2 hv]
+  rfl
+
+/-- **values arrive equal, in order, once — without a codec hypothesis** for every message type of
+the schema language: registered under an id no other registered type shares, marshalled by the wire
+model of `protobuf.Encode`, written in whatever pieces the transport takes, read in whatever
+segments it hands out, unmarshalled by the wire model of `protobuf.Decode`, dispatched. -/
+theorem c03_wire_value_delivery (schema : GoType → List Wire.Ty) (r : Registry)
+    (hf : ∀ v, (codecOf r (wireTCodec schema)).sendable v = true → r.get (typeIdOf v.1) = some v.1)
+    (max : Nat) (hmax : max < 2 ^ 32) (vs : List (GoType × List Wire.Val))
+    (hv : ∀ v ∈ vs, (codecOf r (wireTCodec schema)).sendable v = true ∧
+      (bufOf (codecOf r (wireTCodec schema)) v).length ≤ max)
+    (o : List WAct) (ho : NoFail o) (c : Segs)
+    (hc : c.flatten = (({ oracle := o } : SConn).sendAll (vs.map (bufOf (codecOf r (wireTCodec schema))))).1.out.flatten) :
+    recvAll (codecOf r (wireTCodec schema)) max c = vs.map .deliver ++ [.closed .eof] :=
+  c03_send_recv_values _ (c03_codecOf_sound r _ (wireTCodec_sound schema) hf) max hmax vs hv o ho c hc
+
+/-- non-vacuity: a nested message with every kind of field, inside the lossless range -/
+example : Wire.wf (.msg [.i32, .bytes, .rep .i64, .opt (.msg [.u64, .bool]), .rep (.msg [.bytes]), .f64, .rep .bytes])
+    (.msg [.int (-5), .bytes [104, 105], .rep [.int 1, .int (-2 ^ 62)], .opt (some (.msg [.nat 7, .bool true])),
+      .rep [.msg [.bytes []], .msg [.bytes [1]]], .f64 4607182418800017408, .rep [.bytes [9], .bytes []]]) = true := by
+  decide
+
+/-- the bound on signed integers is the library's, and it is tight: `2^62` comes back as `-2^62`
+(the zig-zag decoder shifts arithmetically) -/
+example : (Wire.decode [.i64] (Wire.encMsg 1 [.i64] [.int (2 ^ 62)])).map (Wire.Val.sames · [.int (-2 ^ 62)]) = some true := by
+  decide
+
 /-! ### the code regions the model stands for
 Regenerated from /repo's source on every run (`harness/cmd/astfacts` → `OnetVerif/Shapes.lean`): the
 calls that matter for synchronisation and data flow, the lock regions and (for decision logic) the
